@@ -311,7 +311,7 @@ func (ex *Exec) store(ptr Value, v Value) {
 		if p == nil {
 			ex.goPanic("nil pointer dereference")
 		}
-		*p = ex.copyVal(v)
+		ex.assignInto(p, v)
 	case BytePtr:
 		p.arr.Write(p.idx, v.(*Term))
 	case ByteArrPtr:
@@ -477,4 +477,37 @@ func typeName(t types.Type) string {
 		return "<nil>"
 	}
 	return t.String()
+}
+
+// assignInto stores v into the cell keeping the identity of aggregate sub-cells (pointers to
+// fields / elements taken earlier stay valid, as in Go).
+func (ex *Exec) assignInto(dst *Value, v Value) {
+	switch x := v.(type) {
+	case Struct:
+		if cur, ok := (*dst).(Struct); ok && len(cur) == len(x) {
+			for i := range x {
+				ex.assignInto(&cur[i], x[i])
+			}
+			return
+		}
+	case *ArrObj:
+		if cur, ok := (*dst).(*ArrObj); ok && cur != nil && x != nil && len(cur.elems) == len(x.elems) {
+			if cur == x {
+				return
+			}
+			for i := range x.elems {
+				ex.assignInto(&cur.elems[i], x.elems[i])
+			}
+			return
+		}
+	case *ByteArr:
+		if cur, ok := (*dst).(*ByteArr); ok && cur != nil && x != nil {
+			if cur == x {
+				return
+			}
+			cur.top = x.snapshot()
+			return
+		}
+	}
+	*dst = ex.copyVal(v)
 }
